@@ -420,6 +420,23 @@ def shard(idx, n, seed, tier, params):
                 src = "%s\n%s: nop" % (isa.render(mn, form, name), name)
                 exp = [isa.encode(mn, form, BASE + 3, BASE), bytes([0xEA])]
                 sig = [mn_group(mn), form, "label-operand|%s" % ("register-like" if name.lower() in ("a", "x", "y") else "plain")]
+        if style == 3 and rng.random() < 0.5:
+            # a literal with a unary operator as the whole operand: `lda #-1` is A9 FF (the suite pins `lda #1-2`), `#!0` is 1
+            imm = [mn for mn in isa.MNEMONICS if isa.encode(mn, "imm", 1, BASE) is not None]
+            mn = rng.choice(imm)
+            nv = rng.randrange(1, 129)
+            radix = rng.choice(["dec", "hex", "bin"])
+            kind = rng.choice(["neg", "not0", "not", "negneg"])
+            if kind == "neg":
+                src, val = "%s #-%s" % (mn, lit(nv, radix)), (256 - nv) & 255
+            elif kind == "not0":
+                src, val = "%s #!%s" % (mn, lit(0, radix)), 1
+            elif kind == "not":
+                src, val = "%s #!%s" % (mn, lit(nv, radix)), 0
+            else:
+                src, val = "%s #-(-%s)" % (mn, lit(nv, radix)), nv
+            exp = [isa.encode(mn, "imm", val, BASE)]
+            sig = [mn_group(mn), "imm", "unary-on-literal|%s" % kind]
         if any(e is None for e in exp):
             continue
         srcs.append(src)
